@@ -252,3 +252,32 @@ func (e *Engine) CallSites(fn *ssa.Function) []*Edge {
 	}
 	return out
 }
+
+// onlyFromGenesisOrUpgrade: every call chain into fn starts in genesis import/export or upgrade/migration code (fn itself
+// included). A function nobody calls that is not such code is an entry point of its own.
+func (e *Engine) onlyFromGenesisOrUpgrade(fn *ssa.Function) bool {
+	seen := map[*ssa.Function]bool{}
+	var walk func(f *ssa.Function) bool
+	walk = func(f *ssa.Function) bool {
+		f = rootFn(f)
+		if isGenesisOrUpgrade(f) {
+			return true
+		}
+		if seen[f] {
+			return true
+		}
+		seen[f] = true
+		n := 0
+		for _, c := range e.Callers(f) {
+			if isAuxPkg(fnPkgPath(c)) {
+				continue
+			}
+			n++
+			if !walk(c) {
+				return false
+			}
+		}
+		return n > 0
+	}
+	return walk(fn)
+}
